@@ -11,17 +11,25 @@
 (* the property does, and checks the formula, inclusion-exclusion of the    *)
 (* volumes, commutativity, Split = (A^B, A-B) and the plane splits.         *)
 (***************************************************************************)
-EXTENDS Naturals, Sequences, TLC, Json
+EXTENDS Integers, Sequences, TLC, Json
 Prims == {"cube", "sphere", "tet", "cyl", "lshape"}
 OpsG == {"Add", "Subtract", "Intersect"}
 Poses == {"overlap", "nested", "disjoint", "shifted", "rotated"}
 Inside(op, a, b) == CASE op = "Add" -> a \/ b [] op = "Subtract" -> a /\ ~b [] op = "Intersect" -> a /\ b
 Truth(op) == [ab \in BOOLEAN \X BOOLEAN |-> Inside(op, ab[1], ab[2])]
+(* C17, Extrude with twist and top scale: the documented point map of layer alpha = z/height is  *)
+(* "twist by alpha*twistDegrees, then scale by lerp(1, scaleTop, alpha)"; classes of arguments:    *)
+Twists == {0, 30, 90, -45, 180}
+Scales == { <<10, 10>>, <<5, 5>>, <<30, 10>>, <<5, 20>>, <<0, 0>>, <<20, 20>> }      \* tenths
+ExtrudeCases == [k : {"extrude"}, twist : Twists, scale : Scales, shape : {"rect", "lshape", "offcentre"}]
+CONSTANT FamilyG
 VARIABLES c, done
-Init == c \in [p : Prims, q : Prims, op : OpsG, pose : Poses] /\ done = FALSE
+Init == c \in (IF FamilyG = "bool" THEN [p : Prims, q : Prims, op : OpsG, pose : Poses] ELSE ExtrudeCases) /\ done = FALSE
 Next == /\ ~done /\ done' = TRUE /\ UNCHANGED c
-        /\ PrintT(<<"BEH", ToJson([p |-> c.p, q |-> c.q, op |-> c.op, pose |-> c.pose,
-                                   tt |-> <<Inside(c.op, FALSE, FALSE), Inside(c.op, FALSE, TRUE), Inside(c.op, TRUE, FALSE), Inside(c.op, TRUE, TRUE)>>])>>)
+        /\ PrintT(<<"BEH", ToJson(IF FamilyG = "bool"
+                                   THEN [p |-> c.p, q |-> c.q, op |-> c.op, pose |-> c.pose,
+                                         tt |-> <<Inside(c.op, FALSE, FALSE), Inside(c.op, FALSE, TRUE), Inside(c.op, TRUE, FALSE), Inside(c.op, TRUE, TRUE)>>]
+                                   ELSE c)>>)
 (* the algebra the property quotes *)
 Laws == \A a, b \in BOOLEAN :
           /\ Inside("Add", a, b) = Inside("Add", b, a) /\ Inside("Intersect", a, b) = Inside("Intersect", b, a)
